@@ -39,7 +39,7 @@ var properties = map[string]*propDef{
 		NotDecided:  "the lexer and parser in front of the converter (C04, C11) and the YAML printer behind it (C10) are other properties' business; when Convert or NewScale stops folding (a construct the folder has no transfer for) the decision falls back to data-flow facts on the converter's functions, which say how it is put together, not what it computes.",
 	},
 	"C04": {
-		Rules:       []string{"GEN-YACC", "TOKENS", "LEXMODE", "PARSEERR", "EOFPRED", "UNDERSCORE", "ERRDROP", "ERRFLOW", "RECUR", "WIRE"},
+		Rules:       []string{"GEN-YACC", "TOKENS", "LEXMODE", "PARSEERR", "EOFPRED", "UNDERSCORE", "ERRDROP", "ERRFLOW", "RECUR", "IOLAYER", "WIRE"},
 		Technique:   "goyacc regeneration with AST comparison, token-set agreement between grammar and lexer, lexer-mode typestate on SSA, the lexer's rune -> token decision and digit class by folding ScanFunc / scanDigits with Peek() bound to probe runes, constant folding of loop predicates at EOF",
 		Explanation: "the shipped parser is AST-equal to what goyacc generates from chords.y and the grammar has 0 conflicts (so, trusting goyacc, it accepts exactly L(chords.y) over token strings); every terminal the rules use is produced by the lexer and nothing undeclared is; white space is discarded before every token, `;` skips to end of line, `{`/`}` and `_` switch the lexer modes and the modes are cleared again; a parser failure cannot be swallowed: parseText returns the lexer's error and every caller tests it before touching the tree (default reductions may store a result for a text that is then rejected); every lexer loop predicate is false at end of input, so a text cut inside a symbol, comment or metadata run terminates and is rejected; the grammar actions list each field from the right position.",
 		NotDecided:  "that the rune classes of scanSymbol / scanMetadata match an external description (the code is the documentation there); bounded-exhaustive acceptance against an independent recogniser.",
@@ -57,7 +57,7 @@ var properties = map[string]*propDef{
 		NotDecided:  "the invariant itself as a statement about all histories (it would need an inductive proof over heap state); only the premises a hand proof uses are checked.",
 	},
 	"C07": {
-		Rules:       []string{"TAB-DYNAMICS", "TAB-DEFAULTS", "TAB-KEYSIG", "SCALEWIRE", "OPT", "OPMAP", "PENDING", "NARROW", "PLAYLOOP", "OVERRIDE", "FLAGS", "REJECT", "TRACKADD", "CONVORDER", "WIRE"},
+		Rules:       []string{"TAB-DYNAMICS", "TAB-DEFAULTS", "TAB-KEYSIG", "SCALEWIRE", "OPT", "OPMAP", "PENDING", "NARROW", "PLAYLOOP", "OVERRIDE", "FLAGS", "REJECT", "TRACKADD", "CONVORDER", "CODEC", "WIRE"},
 		Technique:   techTab + "; " + techPath + " for the Opt typestate and the writer wiring",
 		Explanation: "the dynamics table is strictly increasing within 1..127; defaults are 100 bpm, 4/4, C and a dynamic that has a velocity, each cell starting `updated` so that it is emitted at tick 0; Opt cells emit on first use and after every Update only; update() stores every non-nil setting of an instance (exhaustive over the struct's pointer fields); bpm/meter/key/meta cells are wired to Tempo / Meter(Num, Denom) / Key(tonic, !Minor, Flat+Sharp, Flat>0) / Text-Lyric-Marker by txt-lic-mrk with the text passed unmodified; each op calls the gomidi constructor the SMF spec names; control events consume the pending delta so they land at the instance start (also on rests, since update/emit precede the rest branch); flags override instance 0 only and every getter reads a flag of the right name and type on every command it runs for; meter values that do not fit a MIDI time signature are refused by validate.",
 		NotDecided:  "microseconds-per-quarter arithmetic and denominator encoding (gomidi); UTF-8 byte identity through yaml.v3.",
@@ -93,7 +93,7 @@ var properties = map[string]*propDef{
 		NotDecided:  "sources outside the list (unsafe, cgo, finalisers - none present); the operating system.",
 	},
 	"C13": {
-		Rules:       []string{"TAB-KEYSIG", "SCALEWIRE", "TAB-REGEX", "OPT", "ERRFLOW", "OPMAP", "TAB-DIATONIC", "WIRE"},
+		Rules:       []string{"TAB-KEYSIG", "SCALEWIRE", "TAB-REGEX", "OPT", "ERRFLOW", "OPMAP", "TAB-DIATONIC", "PLAYLOOP", "WIRE"},
 		Technique:   techTab + ": 28 signature rows against signatures derived from the step patterns",
 		Explanation: "every row of the signature table equals the signature derived by walking the major / natural-minor step pattern from the tonic (not copied from a table); the 15 major and 13 minor keys exist; order of flats B E A D G C F by stacking fifths; flats take the first n, sharps the last n; the tonic-to-ring-index table; altered letters of every row equal the derived scale's; NewScale applies a row as stated and refuses keys without a row.",
 		NotDecided:  "NewScale's output as a computed value (it is the composition of checked tables with structurally checked wiring).",
@@ -158,7 +158,7 @@ var otherScope = map[string]map[string][]string{
 	"C10": {"OVERRIDE": {"*|sentinel-only-for-zero"}, "OPT": {"play.midiArgs.writeWhenUpdated|meta"}, "LOOKUP": {"cmd.newWriteCmdArgsFromInputInstances|degree-present", "cmd.newWriteCmdArgsFromInputInstances|refusals"}, "OPMAP": {"midix.MIDIWriter.Text", "midix.MIDIWriter.Lyric", "midix.MIDIWriter.Marker", "midix.MetaText.Call", "midix.MetaLyric.Call", "midix.MetaMarker.Call"}},
 	// the same tokens on one long line or on several lines: nothing may be cut silently
 	// ... and the verdict of the parser must reach the exit status on every input path (stdin, `-`, FILE)
-	"C04": {"ERRDROP": {"*bufio.Scanner", "cmd.parseText"}, "ERRFLOW": {"cmd.readFileOrStdin", "cmd.parseText", "cmd.textCmd"}, "RECUR": {"chan|input/ast.", "loop|input/ast.", "cycle|input/ast."}},
+	"C04": {"IOLAYER": {"cmd.readFileOrStdin", "cmd.parseText", "input-kind|"}, "ERRDROP": {"*bufio.Scanner", "cmd.parseText"}, "ERRFLOW": {"cmd.readFileOrStdin", "cmd.parseText", "cmd.textCmd"}, "RECUR": {"chan|input/ast.", "loop|input/ast.", "cycle|input/ast."}},
 	"C11": {"ERRDROP": {"*bufio.Scanner"}},
 	"C16": {"REJECT": {"chord."}},
 	// an unknown conversion letter anywhere in a chain is refused
@@ -167,7 +167,8 @@ var otherScope = map[string]map[string][]string{
 	// playable in every key: the key signature event is written for every key that has a scale
 	"C17": {"OPT": {"play.midiArgs.writeWhenUpdated|key"}, "PLAYLOOP": {"play|pipeline"}, "CLASSIFY": {"astconv.ASTTypeClassifier.degreeType|domain"}},
 	// the texts of an instance are its own: the converters keep nothing between instances
-	"C07": {"CONVORDER": {"astconv|state"}},
+	// ... and a tempo, meter or dynamic written in the document is read as written (the decoders of the settings)
+	"C07": {"CONVORDER": {"astconv|state"}, "CODEC": {"op.BPM", "op.Meter", "op.DynamicSign", "op.Velocity", "decode|op.BPM", "decode|op.Meter", "decode|op.DynamicSign"}},
 	// the key the piece is played in: --key, when given, is the key of the first instance
 	"C05": {"CODEC": {"decode|op.Key", "op.Key"}, "OVERRIDE": {"cmd.getKey", "cmd.overrideInstanceFromFlags|Key", "cmd.overrideInstanceFromFlags|handed-back", "cmd.overrideInstanceFromFlags|getters"}},
 	// pitch arithmetic: the integer types pitches, intervals and note numbers are computed in
@@ -175,7 +176,8 @@ var otherScope = map[string]map[string][]string{
 	"C12": {"TAB-CIRCLE": {"*|whole-member"}, "TAB-DEGREE": {"note.Degree.simpleSemitone|adjust", "note.Degree|adjust", "note.Degree.Semitone|order"}},
 	// an unknown --key must be refused, not answered with another key's scale
 	// ... and the key signature written is the key's own
-	"C13": {"TAB-DIATONIC": {"op.DiatonicChorderImpl.generate|"}, "ERRFLOW": {"cmd.getScale", "op.NewScale", "cmd.getKey"}, "OPMAP": {"midix.MIDIWriter.Key", "midix.MetaKey.Call"}},
+	// ... for every key change of a piece, also one back to a key that was in force before (the play pipeline)
+	"C13": {"TAB-DIATONIC": {"op.DiatonicChorderImpl.generate|"}, "ERRFLOW": {"cmd.getScale", "op.NewScale", "cmd.getKey", "*-> op.NewScale"}, "OPMAP": {"midix.MIDIWriter.Key", "midix.MetaKey.Call"}, "PLAYLOOP": {"play|pipeline"}},
 }
 
 func init() {
